@@ -429,8 +429,30 @@ func startBody(c *mc.Ctx, item int) mc.Verdict {
 	if len(intp.Stack) != 1 || intp.Stack[0] != postscript.Integer(7) {
 		return fail("wrong-execution", "expected stack [7], got ["+pscmp.ShowStack(intp.Stack)+"]")
 	}
-	// once passed, the check is not repeated
-	mode := c.Choose(3)
+	// once passed, the check is not repeated — also when the call that passed
+	// it ended with an error or hit the budget afterwards
+	mode := c.Choose(5)
+	if mode >= 3 {
+		intp = postscript.NewInterpreter()
+		intp.CheckStart = true
+		if mode == 4 {
+			intp.MaxOps = 3
+		}
+		first := input + "1 2 add pop pop pop 9"
+		if err := intp.ExecuteString(first); err == nil || err == postscript.ErrNoPostScript {
+			return fail("wrong-execution", fmt.Sprintf("first call %q should fail after the check: %s", first, errStr(err)))
+		}
+		intp.MaxOps = 0
+		err2 := intp.ExecuteString("8")
+		c.Step()
+		if err2 == postscript.ErrNoPostScript {
+			return fail("check-repeated", "the first call passed the start check and then failed; the next call was checked again")
+		}
+		if err2 != nil {
+			return fail("check-repeated", "second call failed: "+errStr(err2))
+		}
+		return mc.Pass("accepted-then-error", true)
+	}
 	second := []string{"8", "", "(x"}[mode]
 	err2 := intp.ExecuteString(second)
 	c.Step()
